@@ -235,29 +235,41 @@ class Exec:
         self.oracle_on = oracle
         self.bad = None                    # first violated clause (signature, what, op index)
         self.nops = 0
+        self.free = {}                     # identity -> parent-less object (bottom-up construction), in creation order
+        self.reffree = {}                  # identity -> its reference tree
+        self.ins = {}                      # id(obj) -> number of the op that inserted it into the map that lists it
+        self.T = self.root                 # the tree the current operation works on (the model's root or a parent-less object)
         self.prev = self.dump(None)
         # reference tree, kept by the oracle from the implementation's own
         # accept / reject answers: what the tree must look like
         self.ref = {"key": self.root.key, "id": 0, "prio": 1.0, "spec": {"kind": "map"}, "kids": [],
                     "value": None, "default": ["none"]}
+        self.Tref = self.ref
         self.set_hist = {}
         self.outside = False
-        self.stats = {"readd_ref": 0, "readd_acc": 0, "set_ok": 0, "set_rej": 0, "add_ok": 0, "add_rej": 0, "rm_ok": 0, "depth": 1, "ties": 0}
+        self.stats = {"readd_ref": 0, "readd_acc": 0, "new": 0, "free_ops": 0, "attach_ok": 0, "attach_ref": 0, "attached_nodes": 0, "set_ok": 0, "set_rej": 0, "add_ok": 0, "add_rej": 0, "rm_ok": 0, "depth": 1, "ties": 0}
         self._note_new()
 
     # ---- walking the real tree
+    def roots(self):
+        """the model's root map, then the parent-less objects in creation order"""
+        return [self.root] + list(self.free.values())
+
     def walk(self, m=None, depth=1, _path=()):
         P = mods()["P"]
-        m = self.root if m is None else m
+        if m is None:
+            for r in self.roots():
+                yield from self.walk(r, 1)
+            return
         yield m, depth
         if isinstance(m, P.InputParameterMap) and id(m) not in _path and depth < 40:     # (an accepted re-add can close a cycle)
             for k, c in list(m.value.items()):
                 yield from self.walk(c, depth + 1, _path + (id(m),))
 
     def resolve(self, path):
-        """oracle's own lookup: split on '.', walk the dicts"""
+        """oracle's own lookup in the current target tree: split on '.', walk the dicts"""
         P = mods()["P"]
-        cur = self.root
+        cur = self.T
         for seg in path.split("."):
             if not isinstance(cur, P.InputParameterMap) or seg not in cur.value:
                 return None
@@ -343,7 +355,7 @@ class Exec:
 
     # ---- reference tree
     def ref_node(self, path):
-        cur = self.ref
+        cur = self.Tref
         if path is None:
             return cur
         for seg in path.split("."):
@@ -377,16 +389,34 @@ class Exec:
             par["kids"].insert(i, node)
         elif t == "remove":
             segs = op[1].split(".")
-            par = self.ref_node(".".join(segs[:-1])) if len(segs) > 1 else self.ref
+            par = self.ref_node(".".join(segs[:-1])) if len(segs) > 1 else self.Tref
             if par is not None:
                 par["kids"] = [k for k in par["kids"] if k["key"] != segs[-1]]
         elif t in ("set", "mset"):
             n = self.ref_node(op[1])
             if n is not None:
                 n["value"] = arg_canon(op[2])
+        elif t == "new":
+            sp = op[1]
+            dv = ["none"] if sp["kind"] == "map" else arg_canon(sp["default"])
+            self.reffree[self.nops + 1] = {"key": sp["key"], "id": self.nops + 1, "prio": float(mk_value(sp["prio"])), "spec": sp,
+                                           "kids": [], "value": None if sp["kind"] == "map" else dv, "default": dv}
+        elif t == "attach":
+            par = self.ref_node(op[2])
+            node = self.reffree.pop(op[1], None)
+            if par is None or node is None or par["spec"]["kind"] != "map":
+                return
+            i = 0
+            while i < len(par["kids"]) and par["kids"][i]["prio"] <= node["prio"]:
+                i += 1
+            par["kids"].insert(i, node)
 
     def ref_dump(self, node=None, prefix=""):
-        node = self.ref if node is None else node
+        if node is None:
+            out = self.ref_dump(self.ref)
+            for r in self.reffree.values():
+                out += self.ref_dump(r)
+            return out
         ek = prefix + node["key"]
         out = [[ek, node["id"], node["value"], node["default"]]]
         for k in node["kids"]:
@@ -396,8 +426,12 @@ class Exec:
     def ref_walk(self, node=None, obj=None):
         """pairs (reference node, live object) along the live tree"""
         P = mods()["P"]
-        node = self.ref if node is None else node
-        obj = self.root if obj is None else obj
+        if node is None:
+            yield from self.ref_walk(self.ref, self.root)
+            for ident, r in self.reffree.items():
+                if ident in self.free:
+                    yield from self.ref_walk(r, self.free[ident])
+            return
         yield node, obj
         if isinstance(obj, P.InputParameterMap):
             kids = {k["id"]: k for k in node["kids"]}           # paired by identity, not by key
@@ -409,59 +443,92 @@ class Exec:
     # ---- one operation
     def _do(self, op):
         t = op[0]
+        T = self.T
+        at_root = T is self.root
         if t == "set":
-            self.root.get(op[1]).set_value(mk_value(op[2]))
+            T.get(op[1]).set_value(mk_value(op[2]))
             return ["none"]
         if t == "mset":
             self._mset_obj = mk_value(op[2])
             self.model.set_parameter(op[1], self._mset_obj)
             return ["none"]
         if t == "get":
-            return ["param", self.root.get(op[1])]
+            return ["param", T.get(op[1])]
         if t == "mget":
             v = self.model.get_parameter(op[1])
             if isinstance(v, dict):
                 return ["keys", list(v.keys())]
             return ["value", canon(v)]
         if t == "inspect":
-            return ["decl", decl_of(self.root.get(op[1]))]
+            return ["decl", decl_of(T.get(op[1]))]
         if t == "remove":
-            return ["param", self.root.remove(op[1])]
-        if t == "readd":                      # an EXISTING object is offered to a map
-            p = self.root.get(op[1])
+            return ["param", T.remove(op[1])]
+        if t == "readd":                      # an object that already lives in this tree is offered to a map
+            p = T.get(op[1])
             if op[2] is None:
-                self.model.add_parameter(p)
+                self.model.add_parameter(p) if at_root else T.add(p)
             else:
-                self.root.get(op[2]).add(p)
+                T.get(op[2]).add(p)
             return ["outside"]                # accepted: one object in two maps, outside the tree model
         if t == "addc":
-            parent = self.root if op[1] is None else self.root.get(op[1])
+            parent = T if op[1] is None else T.get(op[1])
             p = self.construct(op[2], parent)
             self.ids[id(p)] = self.nops + 1; self.keep.append(p)
+            self.ins[id(p)] = self.nops + 1
             return ["none"]
         if t == "addm":
-            parent = self.root if op[1] is None else self.root.get(op[1])
+            parent = T if op[1] is None else T.get(op[1])
             p = self.construct(op[2], None)
             self.ids[id(p)] = self.nops + 1; self.keep.append(p)
-            if op[1] is None:
+            if op[1] is None and at_root:
                 self.model.add_parameter(p)
             else:
                 parent.add(p)
+            self.ins[id(p)] = self.nops + 1
+            return ["none"]
+        if t == "new":                        # a parent-less object: the start of a bottom-up construction
+            p = self.construct(op[1], None)
+            self.ids[id(p)] = self.nops + 1; self.keep.append(p)
+            self.free[self.nops + 1] = p
+            return ["none"]
+        if t == "attach":                     # the parent-less object op[1] is added to a map of the target tree
+            obj = self.free[op[1]]
+            parent = T if op[2] is None else T.get(op[2])
+            if op[2] is None and at_root:
+                self.model.add_parameter(obj)
+            else:
+                parent.add(obj)
+            del self.free[op[1]]
+            self.ins[id(obj)] = self.nops + 1
             return ["none"]
         raise ValueError(op)
 
-    def apply(self, op):
+    def apply(self, op0):
         """-> (out, dump | None)  (None: the dump is what it was before)"""
         P = mods()["P"]
+        self._op0 = op0
+        if op0[0] == "free":               # the operation op0[2] on the parent-less object op0[1]
+            op = op0[2]
+            self.T, self.Tref = self.free[op0[1]], self.reffree[op0[1]]
+            self.stats["free_ops"] += 1
+        else:
+            op = op0
+            self.T, self.Tref = self.root, self.ref
         t = op[0]
         # facts the oracle needs from before the operation
         pre_target = self.resolve(op[1]) if t in ("set", "mset", "remove", "get", "mget", "inspect") else None
         pre_parent = None
         if t in ("addc", "addm"):
-            pre_parent = self.root if op[1] is None else self.resolve(op[1])
+            pre_parent = self.T if op[1] is None else self.resolve(op[1])
         pre_dup = None
         if isinstance(pre_parent, P.InputParameterMap) and op[2]["key"] in pre_parent.value:
             pre_dup = pre_parent.value[op[2]["key"]]
+        if t == "attach":
+            pre_parent = self.T if op[2] is None else self.resolve(op[2])
+            k = self.free[op[1]].key
+            if isinstance(pre_parent, P.InputParameterMap) and k in pre_parent.value:
+                pre_dup = pre_parent.value[k]
+            n_att = sum(1 for _ in self.walk(self.free[op[1]], 1))
         exc_name = None
         try:
             out = self._do(op)
@@ -480,7 +547,13 @@ class Exec:
             return out, None
         if t == "readd":
             self.stats["readd_ref"] += 1
-        new_id = self.nops + 1 if t in ("addc", "addm") else None
+        new_id = self.nops + 1 if t in ("addc", "addm", "new") else None
+        if t == "new" and out[0] == "none":
+            self.stats["new"] += 1
+        if t == "attach":
+            self.stats["attach_ok" if out[0] == "none" else "attach_ref"] += 1
+            if out[0] == "none":
+                self.stats["attached_nodes"] += n_att
         now = self.dump(new_id)
         self.ref_update(op, out)
         if self.oracle_on and self.bad is None:
@@ -531,7 +604,8 @@ class Exec:
                     return (f"invalid-value-held:{type(p).__name__}",
                             f"{p.extended_key()} holds {canon(p.value)} which does not satisfy the type/bounds/options it was declared with "
                             f"({ {k: rn['spec'].get(k) for k in ('kind', 'mn', 'mx', 'opts', 'qcls') if k in rn['spec']} })")
-        for p, _d in self.walk():
+        for R in self.roots():
+          for p, _d in self.walk(R, 1):
             cls = type(p).__name__
             f = self.first.get(id(p))
             if not doc_valid(p, p.value):
@@ -543,15 +617,22 @@ class Exec:
                     return (f"default-value-changed:{cls}", f"default of {p.extended_key()} changed from {f[0]} to {canon(p.default_value)}")
                 if p.read_only and f[1] is not None and canon(p.value) != f[1]:
                     return (f"read-only-value-changed:{cls}", f"read-only {p.extended_key()} changed from {f[1]} to {canon(p.value)} by {op[0]}")
-            if p is not self.root:
+            if p is R and R is not self.root and (R.parent is not None or R.extended_key() != R.key):
+                return ("parentless-object-has-a-parent",
+                        f"the parent-less object {R.key!r} (identity {self.ids.get(id(R))}) reports parent "
+                        f"{R.parent.extended_key() if R.parent is not None else None} and extended key {R.extended_key()!r} after {self._op0[:3]}")
+            if p is not R:
                 ek = p.extended_key()
-                pre = self.root.key + "."
+                pre = R.key + "."
                 try:
-                    okk = ek.startswith(pre) and self.root.get(ek[len(pre):]) is p
+                    okk = ek.startswith(pre) and R.get(ek[len(pre):]) is p
                 except Exception:
                     okk = False
                 if not okk:
-                    return ("not-retrievable-by-extended-key", f"root.get of the extended key {ek!r} (root key stripped) does not return that parameter")
+                    where = "root" if R is self.root else f"the parent-less map {R.key!r}"
+                    return ("not-retrievable-by-extended-key",
+                            f"the parameter with identity {self.ids.get(id(p))} (key {p.key!r}) reports the extended key {ek!r}, and "
+                            f"{where}.get of it ({R.key!r} stripped) does not return that parameter (after {self._op0[:3]})")
             if isinstance(p, P.InputParameterMap):
                 kids = list(p.value.items())
                 for k, c in kids:
@@ -561,12 +642,14 @@ class Exec:
                         return ("parent-is-not-the-listing-map",
                                 f"{k!r} is listed in map {p.extended_key()} but its parent is "
                                 f"{c.parent.extended_key() if c.parent is not None else None} (after {op[:3] if t == 'readd' else op[:2]})")
-                order = [(c.display_priority, self.first.get(id(c), (0, 0, self.seq + 1))[2]) for _k, c in kids]
+                order = [(c.display_priority, self.ins.get(id(c), 10 ** 9)) for _k, c in kids]
                 if order != sorted(order):
                     return ("children-order-wrong", f"children of {p.extended_key()} are not listed by priority then insertion: {[k for k, _ in kids]} {order}")
         if t in ("addc", "addm") and pre_dup is not None:
             if not raised or pre_parent.value.get(op[2]["key"]) is not pre_dup:
                 return ("duplicate-key-accepted", f"adding a second {op[2]['key']!r} to {pre_parent.extended_key()} was not refused")
+        if t == "attach" and pre_dup is not None and (not raised or pre_parent.value.get(pre_dup.key) is not pre_dup):
+            return ("duplicate-key-accepted", f"attaching a second {pre_dup.key!r} to {pre_parent.extended_key()} was not refused")
         if t == "remove" and pre_target is not None:
             if raised or ret_obj is not pre_target or self.resolve(op[1]) is not None:
                 return ("remove-by-key-failed", f"remove({op[1]!r}) did not remove and return the parameter stored under that key ({out})")
@@ -780,36 +863,76 @@ def bogus_path(rng, leafs, maps):
     return rng.choice(c)
 
 
+def rel_paths(R):
+    """(leaf paths, map paths, depth of each) below R, from the dict structure (not from extended_key())"""
+    P = mods()["P"]
+    leafs, maps, depth_of = [], [], {}
+
+    def go(m, prefix, d):
+        if not isinstance(m, P.InputParameterMap) or d > 8:
+            return
+        for k, c in list(m.value.items()):
+            rel = prefix + k
+            depth_of[rel] = d + 1
+            (maps if isinstance(c, P.InputParameterMap) else leafs).append(rel)
+            go(c, rel + ".", d + 1)
+    go(R, "", 1)
+    return leafs, maps, depth_of
+
+
 def gen_and_run(rng, n_ops, malformed=False):
     """Generate one sequence while running it (path choices look at the live tree)."""
     P = mods()["P"]
     ex = Exec(True)
     obs = []
     pbad = 0.35 if malformed else 0.12
+    bottom_up = rng.random() < 0.4          # sequences that also build parent-less sub-maps and attach them later
     for i in range(n_ops):
-        leafs, maps, depth_of = [], [], {}
-        pre = ex.root.key + "."
-        for p, d in ex.walk():
-            if p is ex.root:
-                continue
-            rel = p.extended_key()[len(pre):]
-            depth_of[rel] = d
-            (maps if isinstance(p, P.InputParameterMap) else leafs).append(rel)
+        free_maps = [j for j, o in ex.free.items() if isinstance(o, P.InputParameterMap)]
+        tgt = None
+        if free_maps and rng.random() < 0.45:
+            tgt = rng.choice(free_maps)      # this operation works on a parent-less map
+        T = ex.root if tgt is None else ex.free[tgt]
+        leafs, maps, depth_of = rel_paths(T)
         r = rng.random()
         grow = i < 5 or len(leafs) < 2
-        if r < (0.75 if grow else 0.26):
+        u = rng.random()
+        if bottom_up and u < 0.12 and len(ex.free) < 4:
+            # a new parent-less object: mostly a map that will be filled before it is attached
+            sp = gen_spec(rng, True, set(), 0.1 if malformed else 0.03)
+            if rng.random() < 0.75:
+                sp.update({"kind": "map", "default": ["none"]})
+                for k in ("mn", "mx", "opts", "qcls"):
+                    sp.pop(k, None)
+                if sp.get("flaws"):
+                    sp["flaws"] = {k: v for k, v in sp["flaws"].items() if k in FLAWS_FOR["map"]}
+            op = ["new", sp]
+            tgt = None
+        elif ex.free and u < (0.24 if bottom_up else 0.0):
+            # attach a parent-less object: to the model's tree or to another parent-less map
+            cand = list(ex.free)
+            i_att = rng.choice(cand)
+            tgts = [None] + [j for j in free_maps if j != i_att]
+            tgt = rng.choice(tgts) if rng.random() < 0.4 else None
+            T = ex.root if tgt is None else ex.free[tgt]
+            leafs, maps, depth_of = rel_paths(T)
+            dst = rng.choice([None] + maps) if rng.random() > pbad * 0.5 else rng.choice(leafs + [bogus_path(rng, leafs, maps)])
+            op = ["attach", i_att, dst]
+        elif r < (0.75 if grow else 0.26):
             variant = "addc" if rng.random() < 0.6 else "addm"
             pp = None
             if maps and rng.random() < 0.55:
                 pp = rng.choice(maps)
             if rng.random() < pbad * 0.5:
                 pp = bogus_path(rng, leafs, maps) if rng.random() < 0.5 or not leafs else rng.choice(leafs)
-            par = ex.root if pp is None else ex.resolve(pp)
+            ex.T = T
+            par = T if pp is None else ex.resolve(pp)
             taken = set(par.value.keys()) if isinstance(par, P.InputParameterMap) else set()
             depth_ok = (depth_of.get(pp, 1) if pp else 1) < 3
             op = [variant, pp, gen_spec(rng, depth_ok, taken, 0.15 if malformed else 0.04)]
         elif r < 0.66:
-            t = "set" if rng.random() < 0.65 else "mset"
+            t = "set" if (rng.random() < 0.65 or tgt is not None) else "mset"
+            ex.T = T
             if leafs and rng.random() > pbad:
                 path = rng.choice(leafs)
                 op = [t, path, value_for(rng, ex.resolve(path))]
@@ -819,6 +942,8 @@ def gen_and_run(rng, n_ops, malformed=False):
                 op = [t, bogus_path(rng, leafs, maps), vany(rng)]
         elif r < 0.88:
             t = rng.choice(["get", "get", "get", "mget", "mget", "inspect", "inspect"])
+            if tgt is not None and t == "mget":
+                t = "get"
             allp = leafs + maps
             op = [t, rng.choice(allp)] if allp and rng.random() > pbad else [t, bogus_path(rng, leafs, maps)]
         elif r < 0.95:
@@ -829,23 +954,26 @@ def gen_and_run(rng, n_ops, malformed=False):
             allp = leafs + maps
             dsts = [None] + maps
             dup = []
+            ex.T = T
             for sp in allp:
                 k = sp.rsplit(".", 1)[-1]
                 for dp in dsts:
-                    m = ex.root if dp is None else ex.resolve(dp)
+                    m = T if dp is None else ex.resolve(dp)
                     if isinstance(m, P.InputParameterMap) and k in m.value:
                         dup.append((sp, dp))
-            u = rng.random()
-            if dup and u < 0.8:
+            u2 = rng.random()
+            if dup and u2 < 0.8:
                 sp, dp = rng.choice(dup)
                 op = ["readd", sp, dp]
-            elif allp and u < 0.9:
+            elif allp and u2 < 0.9:
                 op = ["readd", rng.choice(allp), rng.choice(dsts + leafs)]          # may be accepted: ends the sequence
             elif allp:
                 op = rng.choice([["readd", bogus_path(rng, leafs, maps), rng.choice(dsts)],
                                  ["readd", rng.choice(allp), bogus_path(rng, leafs, maps)]])
             else:
                 op = ["get", bogus_path(rng, leafs, maps)]
+        if tgt is not None:
+            op = ["free", tgt, op]
         out, d = ex.apply(op)
         obs.append((op, out, d))
         if ex.bad is not None or ex.outside:
@@ -860,12 +988,29 @@ def shrink(ops, sig):
         except Exception:
             return False
         return ex.bad is not None and ex.bad[0] == sig
+    def renum(op, k):
+        """op as it reads once the op with number k is gone (identities are op numbers); None: it refers to k itself"""
+        if op[0] == "free":
+            inner = renum(op[2], k)
+            if op[1] == k or inner is None:
+                return None
+            return ["free", op[1] - 1 if op[1] > k else op[1], inner]
+        if op[0] == "attach":
+            if op[1] == k:
+                return None
+            return ["attach", op[1] - 1 if op[1] > k else op[1], op[2]]
+        return op
+
+    def drop(c, i):
+        tail = [renum(o, i + 1) for o in c[i + 1:]]
+        return None if any(o is None for o in tail) else c[:i] + tail
+
     cur = list(ops)
     changed = True
     while changed:
         changed = False
         for i in range(len(cur) - 1, -1, -1):
-            cand = cur[:i] + cur[i + 1:]
+            cand = drop(cur, i)
             if cand and failing(cand):
                 cur = cand
                 changed = True
@@ -1009,6 +1154,12 @@ class Emitter:
 
     def op(self, op):
         t = op[0]
+        if t == "new":
+            return f"ONew {self.spec(op[1])}"
+        if t == "free":
+            return f"OFree {op[1]} ({self.op(op[2])})"
+        if t == "attach":
+            return f"OAttach {op[1]} {'None' if op[2] is None else '(Some ' + self.s(op[2]) + ')'}"
         if t == "set":
             return f"OSet {self.s(op[1])} {self.val(arg_canon(op[2]))}"
         if t == "mset":
@@ -1092,12 +1243,16 @@ RULE = ("random operation sequences (10-28 ops; every 5th from a malformed-heavy
         "all eight parameter classes, depth <= 3, values valid and invalid per class (wrong type, out of bounds, not an option, "
         "wrong quantity class, bool for int, SI / Quantity for float, NaN, +-inf, -0.0, 10**400, read-only), paths existing and malformed, "
         "existing objects offered to maps that hold their key (refused re-adds; an accepted re-add ends the sequence); "
+        "40% of the sequences also build parent-less objects (mostly maps), fill them, read all extended keys and attach them "
+        "to the tree or to each other later; "
         "non-trivial = distinct sequence with >= 1 accepted and >= 1 rejected set-value on an existing leaf, >= 3 successful adds "
         "and a tree of depth >= 3")
 HOW = ("harness/c18.py run_ops(ops): each op is applied to a fresh DSOLModel's input_parameters "
        "(set -> root.get(path).set_value(v); mset/mget -> model.set_parameter/get_parameter; "
        "addc -> Class(..., parent=...); addm -> parent.add(Class(...)); get/remove -> root.get/remove(path); "
-       "readd src dst -> (root if dst is None else root.get(dst)).add(root.get(src))); "
+       "readd src dst -> (root if dst is None else root.get(dst)).add(root.get(src)); "
+       "new spec -> Class(...) without parent (identity = op number); free j op -> op with the parent-less object j in place of root; "
+       "attach i dst -> (T if dst is None else T.get(dst)).add(<parent-less object i>)); after every op extended_key() of every parameter is read; "
        "the identity of a parameter is the number of the op that created it (root = 0)")
 
 
@@ -1143,7 +1298,7 @@ def main(tier: str) -> int:
     n_random = 4000 if tier == "quick" else 60000
     cases = []          # list of obs lists
     fails = {}          # signature -> (ops, what)
-    hist_ops, hist_exc, set_hist = {}, {}, {}
+    hist_ops, hist_exc, set_hist, bottom_up = {}, {}, {}, {}
     cls_sets = {}
     nontriv = set()
     n_corpus = 0
@@ -1155,11 +1310,16 @@ def main(tier: str) -> int:
 
     def account(ex, obs, keep=True):
         for op, out, _d in obs:
-            hist_ops[op[0]] = hist_ops.get(op[0], 0) + 1
+            hk = op[0] if op[0] != "free" else "free:" + op[2][0]
+            hist_ops[hk] = hist_ops.get(hk, 0) + 1
             if out[0] == "raise":
                 hist_exc[out[1]] = hist_exc.get(out[1], 0) + 1
         for k, v in ex.set_hist.items():
             set_hist[k] = set_hist.get(k, 0) + v
+        for k in ("new", "free_ops", "attach_ok", "attach_ref", "attached_nodes"):
+            bottom_up[k] = bottom_up.get(k, 0) + ex.stats[k]
+        if ex.stats["attach_ok"] and ex.stats["attached_nodes"] > ex.stats["attach_ok"]:
+            bottom_up["sequences_attaching_a_filled_submap"] = bottom_up.get("sequences_attaching_a_filled_submap", 0) + 1
         if nontrivial(ex):
             nontriv.add(json.dumps([o[0] for o in obs], sort_keys=True))
         for p, _ in ex.walk():
@@ -1229,6 +1389,7 @@ def main(tier: str) -> int:
     run.cov["exception_histogram"] = hist_exc
     run.cov["set_attempts_by_class_valuetype_outcome"] = dict(sorted(set_hist.items()))
     run.cov["parameters_in_final_trees_by_class"] = cls_sets
+    run.cov["bottom_up_construction"] = bottom_up
     run.cov["extra_sequences_searched_with_oracle_only"] = searched
     run.cov["source_translation"]["tie"] = ({"status": "broken", **{k: v for k, v in tie.items() if k != "failures"}}
                                             if tie else {"status": "checked"})
